@@ -23,6 +23,12 @@ Generated specs: bool/int/str/list/even x short/long/inverse/env_var, choices on
 `conv_ref` of the model (the harness checks on every string of every case that its Python mirror
 agrees with the real int()).
 
+Abbreviated long options (part abbrev): specs whose long names are prefixes of each other (AB_FAMILIES); every unit kind
+of AB_KINDS (unique prefix / a full name that is a prefix of another name / ambiguous prefix; --p, --p=V, --p V; valued
+option, flag, inverse flag; the rejected combinations) is generated on every seed, run through the same scenario and
+compared with the model; independent oracle resolve_long (exact name, else the only name starting with p), violation
+shape `long-option-abbreviation`.
+
 The two passes over the command line (`doit <loader options> <sub-command> <options> <positional>`):
   part main   the real DoitMain.run, in-process, with a recording task loader (TaskLoader2 with cmd_options: its
               setup() sees the params handed to `execute`, its load_tasks() the same object after DOIT_CONFIG was
@@ -673,6 +679,188 @@ def part_getopt(ctx, out):
             out.nontrivial.add(('getopt', so, tuple(lo), tuple(args)))
         cases.append(dict(model='getopt_z (getopt %s %s %s)' % (cstr(so), clist(cstr(x) for x in lo), clist(cstr(a) for a in args)),
                           expected=obs, desc=dict(kind='getopt', short=so, long=lo, args=args)))
+    return cases
+
+
+# ------------------------------------------------------------------ abbreviated long options
+# families of long names that are prefixes of each other / share prefixes
+AB_FAMILIES = [['fi', 'file', 'files'], ['verb', 'verbosity', 'verbose'], ['db', 'db-file', 'dbm'], ['cont', 'continue'],
+               ['seek', 'see-k'], ['x', 'xyz'], ['no', 'none', 'no-x'], ['output', 'out-dir']]
+
+
+def gen_abbrev_spec(rng, names=None):
+    """well-formed spec whose long names come from AB_FAMILIES: exact-vs-prefix and ambiguous prefixes abound"""
+    if names is None:
+        names = rng.sample([n for fam in AB_FAMILIES for n in fam], rng.randint(2, 7))
+    shorts = rng.sample(SHORTS, len(names))
+    used = set(names)
+    spec = []
+    for i, nm in enumerate(names):
+        ty = rng.choice(['bool', 'bool', 'bool', 'int', 'str', 'list'])
+        inverse = ''
+        if ty == 'bool' and rng.random() < 0.6 and ('no-' + nm) not in used:
+            inverse = 'no-' + nm
+            used.add(inverse)
+        spec.append(dict(n=i + 1, ty=ty, default=gen_default(rng, ty, []), short=shorts[i] if rng.random() < 0.5 else '',
+                         long=nm, inverse=inverse, choices=[], env=0))
+    return spec
+
+
+def long_names_of(spec):
+    """long / inverse name -> (option, is_inverse)   (independent of long_entries / getopt)"""
+    names = {}
+    for o in spec:
+        if o['long']:
+            names[o['long']] = (o, False)
+            if o['inverse']:
+                names[o['inverse']] = (o, True)
+    return names
+
+
+def resolve_long(names, p):
+    """what the documentation of getopt promises for --p: the option named p, else the only option whose
+    name starts with p, else an error ('unknown' / 'ambiguous')"""
+    if p in names:
+        return names[p]
+    cands = [n for n in names if n.startswith(p)]
+    if len(cands) == 1:
+        return names[cands[0]]
+    return 'unknown' if not cands else 'ambiguous'
+
+
+def abbrev_forms(spec):
+    """every abbreviated way of writing a long / inverse name of the spec, by kind:
+       unique            proper prefix of exactly one name
+       exact-vs-prefix   a full name that is a proper prefix of another name (the exact match must win)
+       ambiguous         proper prefix of two names or more, equal to none
+    -> list of (kind, prefix, option or None, is_inverse)"""
+    names = long_names_of(spec)
+    res, seen = [], set()
+    for nm, (o, inv) in names.items():
+        for i in range(1, len(nm) + 1):
+            p = nm[:i]
+            if p in seen:
+                continue
+            r = resolve_long(names, p)
+            if p == nm:
+                if any(n != nm and n.startswith(nm) for n in names):
+                    seen.add(p)
+                    res.append(('exact-vs-prefix', p, o, inv))
+            elif r == 'ambiguous':
+                seen.add(p)
+                res.append(('ambiguous', p, None, False))
+            elif p not in names:
+                seen.add(p)
+                res.append(('unique', p, o, inv))
+    return res
+
+
+def gen_abbrev_cases(rng, spec, per_kind):
+    """cases for one spec: a few ordinary assignments, then ONE abbreviated unit, then positionals"""
+    forms = abbrev_forms(spec)
+    cases = []
+    for kind in ('unique', 'exact-vs-prefix', 'ambiguous'):
+        sel = [f for f in forms if f[0] == kind]
+        rng.shuffle(sel)
+        for _, p, o, inv in sel[:per_kind]:
+            variants = []          # (sub-kind, tokens, assignment or None = must be rejected, must be last)
+            v = valid_string(rng, o, True) if o is not None and o['ty'] != 'bool' else rng.choice(['1', 'x', ''])
+            if o is None:
+                variants += [('ambiguous', ['--' + p], None, False), ('ambiguous-eq', ['--' + p + '=' + v], None, False)]
+            elif o['ty'] == 'bool':
+                variants += [(kind + (':inverse' if inv else ':flag'), ['--' + p], (o['n'], not inv), False),
+                             (kind + (':inverse-with-value' if inv else ':flag-with-value'), ['--' + p + '=' + v], None, False)]
+            else:
+                variants += [(kind + ':value-eq', ['--' + p + '=' + v], (o['n'], v), False),
+                             (kind + ':value-next', ['--' + p, v], (o['n'], v), False),
+                             (kind + ':value-missing', ['--' + p], None, True)]
+            for sub, toks, asg, last in variants:
+                assigns, pre = [], []
+                usable = [x for x in spec if x['short'] or x['long']]
+                for _ in range(rng.randint(0, 2)):
+                    x = rng.choice(usable)
+                    if x['ty'] == 'bool':
+                        fv = rng.random() < 0.6 or not x['inverse']
+                        assigns.append((x['n'], fv))
+                        pre += render_assignment(rng, spec, x, None, fv)
+                    else:
+                        s = valid_string(rng, x, True)
+                        assigns.append((x['n'], s))
+                        pre += render_assignment(rng, spec, x, s, None)
+                pos = [] if last else rng.choice([[], ['t1'], ['t1', '-x', '--fi'], ['--', '--f']])
+                pos_tokens = list(pos)
+                if pos and pos[0] == '--':
+                    pos = pos[1:]
+                if asg is not None:
+                    assigns.append(asg)
+                cases.append(dict(kind='abbrev:' + sub, spec=copy.deepcopy(spec), cfg=[], env=[], dodo=[], argv=pre + toks + pos_tokens,
+                                  assigns=assigns if asg is not None else None, pos=pos, written=toks, task=rng.random() < 0.3))
+    return cases
+
+
+def judge_abbrev(c, det, out):
+    """oracle (no doit code, no model): an abbreviation that names one option is that option; an ambiguous one,
+    a flag given a value, a missing value are parse errors"""
+    slim = {k: c[k] for k in ('spec', 'cfg', 'env', 'dodo', 'argv')}
+    ps = det['parses']
+    oc = ps[0]['outcome'] if ps else det['overwrite']
+    if c['assigns'] is None:
+        if oc != 3:
+            out.violations.append(dict(what='%s: %s was not rejected with a parse error (outcome %s)' % (c['kind'], ' '.join(c['written']), oc),
+                                       shape='long-option-abbreviation', case=slim))
+        return
+    if oc != 0:
+        out.violations.append(dict(what='%s: %s was rejected (outcome %s)' % (c['kind'], ' '.join(c['written']), oc),
+                                   shape='long-option-abbreviation', case=slim))
+        return
+    parsed, _ = expected_wf(c)
+    got = {int(k[1:]): v for k, v in ps[0]['params'].items()}
+    if got != parsed or ps[0]['args'] != c['pos']:
+        out.violations.append(dict(what='%s: %s gave values %r positional %r, expected %r %r' % (
+            c['kind'], ' '.join(c['written']), got, ps[0]['args'], parsed, c['pos']), shape='long-option-abbreviation', case=slim))
+    if len(ps) == 2 and ps[0]['enc'] != ps[1]['enc']:
+        out.violations.append(dict(what='parsing the same command line twice with one parser object gave different results',
+                                   shape='impure-second-parse', case=slim))
+
+
+AB_DIRECTED = [['fi', 'file', 'files'], ['verb', 'verbosity', 'verbose', 'x'], ['no', 'none', 'db', 'db-file', 'dbm'], ['cont', 'continue', 'output', 'out-dir']]
+AB_KINDS = ['unique:flag', 'unique:inverse', 'unique:value-eq', 'unique:value-next', 'unique:value-missing', 'unique:flag-with-value',
+            'unique:inverse-with-value', 'exact-vs-prefix:flag', 'exact-vs-prefix:value-eq', 'exact-vs-prefix:value-next',
+            'exact-vs-prefix:flag-with-value', 'exact-vs-prefix:value-missing', 'ambiguous', 'ambiguous-eq']
+
+
+def part_abbrev(ctx, out):
+    """abbreviated long options (getopt.long_has_args): unique prefixes, exact-vs-prefix, ambiguous prefixes, with and
+    without =VALUE, for valued options, flags and inverse flags  <->  model `scenario`; oracle shape long-option-abbreviation.
+    Directed specs (every kind of AB_KINDS on every seed) + random ones"""
+    rng = ctx.rng
+    raw = []
+    # directed: for each family set, one spec per typing that makes the first (shortest) names flags resp. valued
+    for names in AB_DIRECTED:
+        for mode in ('flags', 'valued'):
+            spec = gen_abbrev_spec(rng, names)
+            for i, o in enumerate(spec):
+                if mode == 'flags':
+                    o.update(ty='bool', default=False, inverse='no-' + o['long'] if ('no-' + o['long']) not in names and i % 2 == 0 else '')
+                else:
+                    o.update(ty=['str', 'int', 'list'][i % 3], default=[None, 0, []][i % 3], inverse='')
+            raw += gen_abbrev_cases(rng, spec, ctx.n(2, 4))
+    for _ in range(ctx.n(14, 140)):
+        raw += gen_abbrev_cases(rng, gen_abbrev_spec(rng), ctx.n(1, 2))
+    cases = []
+    for c in raw:
+        check_int_oracle(c, out)
+        try:
+            obs, det = run_impl(c)
+        except Exception:  # noqa
+            obs, det = [98], {'parses': [], 'overwrite': 98}
+        judge_abbrev(c, det, out)
+        out.count(c['kind'])
+        out.nontrivial.add((c['kind'], tuple(c['argv']), tuple((o['ty'], o['short'], o['long'], o['inverse']) for o in c['spec'])))
+        cases.append(dict(model=case_model(c), expected=obs, desc=dict(kind=c['kind'], spec=c['spec'], cfg=[], env=[], dodo=[], argv=c['argv'])))
+    missing = [k for k in AB_KINDS if not out.distribution.get('abbrev:' + k)]
+    if missing:          # generator self-check: every kind on every seed
+        out.mismatches.append(dict(case='abbreviated long options: kinds not generated', impl=missing, model=''))
     return cases
 
 
@@ -1524,11 +1712,13 @@ def run(ctx):
     out = Outcome()
     out.rule = ('scenario cases: well-formed (spec, assignment rendered in every getopt form, env/config/DOIT_CONFIG filled), the same '
                 'with one injected error per kind, and wild ones (ill-formed specs, token soup); getopt.getopt alone on random tables; '
+                'abbreviated long options (specs whose long names are prefixes of each other: unique / exact-vs-prefix / ambiguous prefixes, '
+                'with and without =VALUE, valued options, flags, inverse flags; every kind on every seed); '
                 'Task.init_options; DoitMain.run with recording loader/commands (options of the loader before the sub-command name, config '
                 'sections, environment, DOIT_CONFIG; well-formed, one injected error, wild); Command.parse_execute with opt_vals twice on one '
                 'object; process_args; the real CLI in a sub-process (which dodo file is loaded).  non-trivial = distinct (kind, argv, option '
                 'shapes, env, config) with a non-empty argv/env/config')
-    cases = part_scenarios(ctx, out) + part_getopt(ctx, out) + part_task_options(ctx, out)
+    cases = part_scenarios(ctx, out) + part_getopt(ctx, out) + part_abbrev(ctx, out) + part_task_options(ctx, out)
     cases += part_main(ctx, out) + part_pe(ctx, out) + part_vars(ctx, out)
     part_exit_code(ctx, out)
     ncli = part_cli(ctx, out)
